@@ -6,8 +6,8 @@ use crate::lex;
 use crate::parse::PT;
 use crate::util::Dialect;
 use proptest::prelude::*;
-use sea_query::extension::postgres::PgBinOper;
-use sea_query::extension::sqlite::SqliteBinOper;
+use sea_query::extension::postgres::{PgBinOper, PgExpr};
+use sea_query::extension::sqlite::{SqliteBinOper, SqliteExpr};
 use sea_query::*;
 use serde::{Deserialize, Serialize};
 
@@ -382,7 +382,83 @@ fn sub_text(d: Dialect) -> String {
     lex::lex(d, &sql).unwrap().iter().map(|t| t.tok.show()).collect::<Vec<_>>().join(" ")
 }
 
+/// One binary operation through one of the equivalent public entry points (`k` selects): the generic `binary`, the named
+/// method on the expression, or the named method on an `Expr` wrapper.
+fn bin_entry(l: SimpleExpr, op: Op, r: &E, d: Dialect, k: u64) -> SimpleExpr {
+    // `x IS NULL` / `x IS NOT NULL` shortcuts
+    if matches!(r, E::Null) && k % 3 != 0 {
+        match (op, k % 3) {
+            (Op::Is, 1) => return l.is_null(),
+            (Op::Is, _) => return Expr::expr(l).is_null(),
+            (Op::IsNot, 1) => return l.is_not_null(),
+            (Op::IsNot, _) => return Expr::expr(l).is_not_null(),
+            _ => {}
+        }
+    }
+    // `x = col` / `x <> col` shortcuts
+    if let (Op::Eq | Op::Ne, E::Col(i), 3) = (op, r, k % 4) {
+        let c = a(COLS[*i as usize % 4]);
+        return if op == Op::Eq { l.equals(c) } else { l.not_equals(c) };
+    }
+    let rb = r.build(d);
+    macro_rules! named {
+        ($m:ident) => {
+            if k % 3 == 1 {
+                l.$m(rb)
+            } else {
+                Expr::expr(l).$m(rb)
+            }
+        };
+    }
+    if k % 3 == 0 {
+        return l.binary(op.to_binoper(), rb);
+    }
+    match op {
+        Op::And => l.and(rb),
+        Op::Or => l.or(rb),
+        Op::Is => named!(is),
+        Op::IsNot => named!(is_not),
+        Op::Eq => named!(eq),
+        Op::Ne => named!(ne),
+        Op::Lt => named!(lt),
+        Op::Gt => named!(gt),
+        Op::Le => named!(lte),
+        Op::Ge => named!(gte),
+        Op::Add => named!(add),
+        Op::Sub => named!(sub),
+        Op::Mul => named!(mul),
+        Op::Div => named!(div),
+        Op::Mod => named!(modulo),
+        Op::LShift => named!(left_shift),
+        Op::RShift => named!(right_shift),
+        Op::BitAnd => l.bit_and(rb),
+        Op::BitOr => l.bit_or(rb),
+        Op::PgMatches => PgExpr::matches(l, rb),
+        Op::PgContains => PgExpr::contains(l, rb),
+        Op::PgContained => PgExpr::contained(l, rb),
+        Op::PgConcat => {
+            if k % 2 == 0 {
+                PgExpr::concatenate(l, rb)
+            } else {
+                PgExpr::concat(l, rb)
+            }
+        }
+        Op::PgGetJson => PgExpr::get_json_field(l, rb),
+        Op::PgCastJson => PgExpr::cast_json_field(l, rb),
+        Op::SqGlob => SqliteExpr::glob(l, rb),
+        Op::SqMatch => SqliteExpr::matches(l, rb),
+        Op::SqGetJson => SqliteExpr::get_json_field(l, rb),
+        Op::SqCastJson => SqliteExpr::cast_json_field(l, rb),
+        _ => l.binary(op.to_binoper(), rb),
+    }
+}
+
 impl E {
+    /// selector among equivalent API entry points: a function of the node, so the case stays the spec alone
+    fn entry(&self) -> u64 {
+        crate::runner::fingerprint(self) >> 7
+    }
+
     /// Build through the public expression API.
     pub fn build(&self, d: Dialect) -> SimpleExpr {
         match self {
@@ -391,7 +467,13 @@ impl E {
             E::QCol(t, c) => Expr::col((a(crate::stmt_spec::QUALS[*t as usize % 8]), a(crate::stmt_spec::QCOLS[*c as usize % 5]))).into(),
             E::Agg(f, e, distinct) => {
                 let x = e.build(d);
+                let wrapper = self.entry() % 2 == 1;
                 match (f % 5, distinct) {
+                    (0, true) if wrapper => Expr::expr(x).count_distinct(),
+                    (0, false) if wrapper => Expr::expr(x).count(),
+                    (1, _) if wrapper => Expr::expr(x).sum(),
+                    (2, _) if wrapper => Expr::expr(x).max(),
+                    (3, _) if wrapper => Expr::expr(x).min(),
                     (0, true) => Func::count_distinct(x).into(),
                     (0, false) => Func::count(x).into(),
                     (1, _) => Func::sum(x).into(),
@@ -418,21 +500,28 @@ impl E {
             }
             E::AliasRef(i) => Expr::col(a(crate::stmt_spec::ITEM_ALIASES[*i as usize % 4])).into(),
             E::V(v) => SimpleExpr::Value(v.value()),
-            E::Int(i) => Expr::val(*i).into(),
+            E::Int(i) => match self.entry() % 3 {
+                0 => Expr::val(*i).into(),
+                1 => Expr::value(Value::BigInt(Some(*i))),
+                _ => SimpleExpr::from(*i),
+            },
             E::Text(s) => Expr::val(s.as_str()).into(),
             E::Bool(b) => Expr::val(*b).into(),
             E::Null => SimpleExpr::Keyword(Keyword::Null),
             E::ConstBool(b) => SimpleExpr::Constant(Value::Bool(Some(*b))),
             E::Const(i) => SimpleExpr::Constant(Value::BigInt(Some(*i))),
-            E::Not(e) => e.build(d).not(),
-            E::Bin(l, op, r) => l.build(d).binary(op.to_binoper(), r.build(d)),
-            E::Between { not, x, lo, hi } => {
-                if *not {
-                    x.build(d).not_between(lo.build(d), hi.build(d))
-                } else {
-                    x.build(d).between(lo.build(d), hi.build(d))
-                }
-            }
+            E::Not(e) => match self.entry() % 3 {
+                0 => e.build(d).not(),
+                1 => Expr::expr(e.build(d)).not(),
+                _ => e.build(d).unary(UnOper::Not),
+            },
+            E::Bin(l, op, r) => bin_entry(l.build(d), *op, r, d, self.entry()),
+            E::Between { not, x, lo, hi } => match (self.entry() % 2, *not) {
+                (0, true) => x.build(d).not_between(lo.build(d), hi.build(d)),
+                (0, false) => x.build(d).between(lo.build(d), hi.build(d)),
+                (_, true) => Expr::expr(x.build(d)).not_between(lo.build(d), hi.build(d)),
+                (_, false) => Expr::expr(x.build(d)).between(lo.build(d), hi.build(d)),
+            },
             E::LikePat { not, x, pat, esc } => {
                 let mut l = LikeExpr::new(pat.clone());
                 if let Some(c) = esc {
@@ -446,19 +535,19 @@ impl E {
             }
             E::In { not, x, list } => {
                 let items: Vec<SimpleExpr> = list.iter().map(|e| e.build(d)).collect();
-                if *not {
-                    x.build(d).is_not_in(items)
-                } else {
-                    x.build(d).is_in(items)
+                match (self.entry() % 2, *not) {
+                    (0, true) => x.build(d).is_not_in(items),
+                    (0, false) => x.build(d).is_in(items),
+                    (_, true) => Expr::expr(x.build(d)).is_not_in(items),
+                    (_, false) => Expr::expr(x.build(d)).is_in(items),
                 }
             }
-            E::InSub { not, x } => {
-                if *not {
-                    x.build(d).not_in_subquery(subquery())
-                } else {
-                    x.build(d).in_subquery(subquery())
-                }
-            }
+            E::InSub { not, x } => match (self.entry() % 2, *not) {
+                (0, true) => x.build(d).not_in_subquery(subquery()),
+                (0, false) => x.build(d).in_subquery(subquery()),
+                (_, true) => Expr::expr(x.build(d)).not_in_subquery(subquery()),
+                (_, false) => Expr::expr(x.build(d)).in_subquery(subquery()),
+            },
             E::Func(f, args) => {
                 let mut it = args.iter().map(|e| e.build(d));
                 let fc = match f {
@@ -466,6 +555,9 @@ impl E {
                     F::Coalesce => Func::coalesce(it.collect::<Vec<_>>()),
                     F::IfNull => {
                         let x = it.next().unwrap();
+                        if self.entry() % 2 == 1 {
+                            return Expr::expr(x).if_null(it.next().unwrap());
+                        }
                         Func::if_null(x, it.next().unwrap())
                     }
                     F::Greatest => Func::greatest(it.collect::<Vec<_>>()),
@@ -478,11 +570,15 @@ impl E {
                 };
                 fc.into()
             }
-            E::Cast(e, ty) => e.build(d).cast_as(a(ty)),
+            E::Cast(e, ty) => match self.entry() % 3 {
+                0 => e.build(d).cast_as(a(ty)),
+                1 => Expr::expr(e.build(d)).cast_as(a(ty)),
+                _ => Func::cast_as(e.build(d), a(ty)).into(),
+            },
             E::Case(whens, els) => {
                 let mut c = CaseStatement::new();
-                for (w, r) in whens {
-                    c = c.case(w.build(d), r.build(d));
+                for (i, (w, r)) in whens.iter().enumerate() {
+                    c = if i == 0 && self.entry() % 2 == 1 { Expr::case(w.build(d), r.build(d)) } else { c.case(w.build(d), r.build(d)) };
                 }
                 if let Some(e) = els {
                     c = c.finally(e.build(d));
